@@ -1,6 +1,8 @@
 import Mathlib.Tactic
 import Sentinel.Lemmas.WarmUp
 import Sentinel.Lemmas.WarmUpHist
+import Sentinel.Lemmas.WarmUpRun
+import Sentinel.Lemmas.WarmUpReload
 /-!
 # C11 — adaptive thresholds stay inside their configured envelope
 
@@ -803,6 +805,110 @@ theorem reqOwn_admits_under_threshold (T : ℚ) (p cf0 sc Iv : ℕ) (hnd : Known
   unfold rejects at hadm
   simp only [c_ofNat, c_ltb, Bool.not_eq_true', decide_eq_false_iff_not, not_lt] at hadm
   exact le_trans hadm (val_le_T hwf _)
+
+
+/-! ## every history of the model the driver runs (`Lemmas/WarmUpRun.lean`)
+
+`runOps total ({}, 0) ops` is the driver's `step` over a structured history `ops : List Op` — `clock`, `mem` (any reading), `loadWu` / `loadMa`
+with Reject or Throttling (`q`), any view and with or without a statistic of the rule's own (`sa`), i.e. reloads that keep, inherit or
+replace controller and statistic (`loadRuleG`), `req n b` (`reqsG`), `probe b` — on the exact carrier. A second, never-deciding rule on the
+resource (`companion`) is not an op of the model: the driver ignores it. `RInv` is the invariant of all reachable states. -/
+open Sentinel.WU.R
+
+/-- reachable states keep the stored tokens inside the bucket of the rule in force, which is the `mkCfg` of some loaded parameters -/
+theorem history_tokens_in_bucket (total : ℤ) (ops : List Op) (c : Cfg ℚ) (sc Iv : ℕ)
+    (hr : (runOps total ({}, 0) ops).1.rule = some (.warmup c, sc, Iv)) :
+    (∃ T p cf, c = mkCfg T p cf) ∧ 0 ≤ (runOps total ({}, 0) ops).1.tok.tokens ∧ (runOps total ({}, 0) ops).1.tok.tokens ≤ c.max :=
+  (runOps_rinv total ops (rinv_init total)).wu c sc Iv hr
+
+/-- **warm-up envelope along every history** (Reject and Throttling, any view, any inherited or own statistic `a`, any instant): outside
+    `warmup-nan` the threshold a decision is checked against lies in `[T / coldFactor, T]` -/
+theorem history_threshold_envelope_warmup (total : ℤ) (ops : List Op) (a : Arr Bucket) (now : ℕ) (c : Cfg ℚ) (sc Iv : ℕ)
+    (hr : (runOps total ({}, 0) ops).1.rule = some (.warmup c, sc, Iv)) (hnd : Known.degenerateNaN c = false) :
+    ∃ q, (threshold (runOps total ({}, 0) ops).1 a now).2 = some (some q) ∧ c.T / c.cf ≤ q ∧ q ≤ c.T ∧ 0 < q :=
+  threshold_envelope_warmup (runOps_rinv total ops (rinv_init total)) a now c sc Iv hr hnd
+
+/-- **memory-adaptive envelope along every history**: whatever was loaded, reloaded and injected before (readings of `-1`, `0`, negative,
+    `2^62`, `MaxInt64` included — `mem` ranges over ℤ), the threshold is `memAllowed` of the rule in force at the current reading and lies in
+    `[HighMemUsageThreshold, LowMemUsageThreshold]` -/
+theorem history_threshold_envelope_adaptive (total : ℤ) (ops : List Op) (a : Arr Bucket) (now : ℕ) (m : MemCfg) (sc Iv : ℕ)
+    (hr : (runOps total ({}, 0) ops).1.rule = some (.adaptive m, sc, Iv)) :
+    ∃ q : ℚ, (threshold (runOps total ({}, 0) ops).1 a now).2 = some (some q) ∧ (m.highT : ℚ) ≤ q ∧ q ≤ m.lowT ∧ 0 < q ∧
+      q = memAllowed m (runOps total ({}, 0) ops).1.mem :=
+  threshold_envelope_adaptive (runOps_rinv total ops (rinv_init total)) a now m sc Iv hr
+
+/-- **admitted tokens never exceed the window's allowed threshold, along every history (Reject, slack 0)**: after any history, a request that
+    `reqG` admits leaves the window of the statistic its rule reads (`readArr`: the resource's, an inherited or an own one) within the
+    threshold computed for that decision, hence within `T` (non-degenerate warm-up) -/
+theorem history_admission_within_threshold_warmup (total : ℤ) (ops : List Op) (t b : ℕ) (ra : Arr Bucket) (c : Cfg ℚ) (sc Iv : ℕ)
+    (hr : (runOps total ({}, 0) ops).1.rule = some (.warmup c, sc, Iv)) (hnd : Known.degenerateNaN c = false)
+    (hra : readArr (runOps total ({}, 0) ops).1 t = some ra) (hadm : (reqG (runOps total ({}, 0) ops).1 t b).2 = true) :
+    ∃ q, (threshold (runOps total ({}, 0) ops).1 ra t).2 = some (some q) ∧ ((vSum ra Iv t .pass + b : ℕ) : ℚ) ≤ q ∧ q ≤ c.T := by
+  obtain ⟨q, hq, _, h2, _⟩ := history_threshold_envelope_warmup total ops ra t c sc Iv hr hnd
+  exact ⟨q, hq, reqG_admits_within _ t b ra hra _ sc Iv hr q hq hadm, h2⟩
+
+/-- the same for memory-adaptive rules: within the interpolated threshold of the current reading, hence within `LowMemUsageThreshold` -/
+theorem history_admission_within_threshold_adaptive (total : ℤ) (ops : List Op) (t b : ℕ) (ra : Arr Bucket) (m : MemCfg) (sc Iv : ℕ)
+    (hr : (runOps total ({}, 0) ops).1.rule = some (.adaptive m, sc, Iv))
+    (hra : readArr (runOps total ({}, 0) ops).1 t = some ra) (hadm : (reqG (runOps total ({}, 0) ops).1 t b).2 = true) :
+    ((vSum ra Iv t .pass + b : ℕ) : ℚ) ≤ memAllowed m (runOps total ({}, 0) ops).1.mem ∧
+    ((vSum ra Iv t .pass + b : ℕ) : ℚ) ≤ m.lowT := by
+  obtain ⟨q, hq, _, h2, _, h4⟩ := history_threshold_envelope_adaptive total ops ra t m sc Iv hr
+  have := reqG_admits_within _ t b ra hra _ sc Iv hr q hq hadm
+  exact ⟨by rw [← h4]; exact this, le_trans this h2⟩
+
+/-- **Throttling along every history** (WarmUp × Throttling, MemoryAdaptive × Throttling): a probe that is not blocked was checked against a
+    positive threshold inside the envelope that is at least its batch, and a wait never exceeds `MaxQueueingTimeMs` -/
+theorem history_throttled_admission (total : ℤ) (ops : List Op) (ns b : ℕ) (hb : 0 < b) (a : Arr Bucket)
+    (ha : ((runOps total ({}, 0) ops).1.touch (ns / 1000000)).arr = some a) (cl : Calc ℚ) (sc Iv maxQ : ℕ)
+    (hr : (runOps total ({}, 0) ops).1.rule = some (cl, sc, Iv)) (hq : (runOps total ({}, 0) ops).1.behav = some maxQ)
+    (hadm : (probe (runOps total ({}, 0) ops).1 ns b).2.1 ≠ .block) :
+    (∃ q, (threshold (runOps total ({}, 0) ops).1 (((runOps total ({}, 0) ops).1.touch (ns / 1000000)).own.getD a) (ns / 1000000)).2
+        = some (some q) ∧ 0 < q ∧ (b : ℚ) ≤ q ∧
+      (∀ c, cl = .warmup c → Known.degenerateNaN c = false → c.T / c.cf ≤ q ∧ q ≤ c.T) ∧
+      (∀ m, cl = .adaptive m → (m.highT : ℚ) ≤ q ∧ q ≤ m.lowT)) ∧
+    (∀ w, (probe (runOps total ({}, 0) ops).1 ns b).2.1 = .wait w → w ≤ (maxQ : ℤ) * 1000000) := by
+  obtain ⟨⟨q, h1, h2, h3⟩, hw⟩ := probe_admitted _ ns b hb a ha cl sc Iv maxQ hr hq hadm
+  refine ⟨⟨q, h1, h2, h3, ?_, ?_⟩, hw⟩
+  · intro c hc hnd
+    subst hc
+    obtain ⟨q', e, k1, k2, _⟩ := history_threshold_envelope_warmup total ops
+      (((runOps total ({}, 0) ops).1.touch (ns / 1000000)).own.getD a) (ns / 1000000) c sc Iv hr hnd
+    rw [h1] at e
+    simp only [Option.some.injEq] at e
+    subst e
+    exact ⟨k1, k2⟩
+  · intro m hm
+    subst hm
+    obtain ⟨q', e, k1, k2, _⟩ := history_threshold_envelope_adaptive total ops
+      (((runOps total ({}, 0) ops).1.touch (ns / 1000000)).own.getD a) (ns / 1000000) m sc Iv hr
+    rw [h1] at e
+    simp only [Option.some.injEq] at e
+    subst e
+    exact ⟨k1, k2⟩
+
+
+/-- **window cap along histories with reloads** (default 1 s view, Reject): the warm-up rule of a fresh resource is loaded at `t0` and
+    afterwards reloaded any number of times — unchanged (controller and tokens kept) or with other threshold / period / cold factor (fresh,
+    cold calculator on the same statistic) — between requests of any batch size at any non-decreasing instants. If every loaded rule is
+    non-degenerate with threshold at most `B`, every window of two consecutive 500 ms buckets (every aligned second in particular) holds at
+    most `B` admitted tokens. (`B` = the largest threshold in force; a window can straddle a reload that lowers the threshold.) -/
+theorem window_cap_with_reloads (B T : ℚ) (p cf iv t0 : ℕ) (hnd : Known.degenerateNaN (mkCfg T p cf) = false) (hTB : T ≤ B)
+    (h0 : 1000 ≤ t0) (ops : List DOp) (hm : MonoD t0 ops) (hr : RulesBelow B ops) (w : ℕ) :
+    (passIn (runD (loadRuleG ({} : Sys ℚ) t0 (.wu T p cf iv) none true 2 1000 false, []) ops).2 w (w + 500) : ℚ) ≤ B ∧
+    passIn (runD (loadRuleG ({} : Sys ℚ) t0 (.wu T p cf iv) none true 2 1000 false, []) ops).2 w (w + 500) ≤ ⌊B⌋₊ := by
+  have hwf := mkCfg_wf T p cf hnd
+  have d : DInv B t0 (loadRuleG ({} : Sys ℚ) t0 (.wu T p cf iv) none true 2 1000 false, []) t0 := by
+    refine ⟨⟨mkCfg T p cf, ⟨rfl, rfl, trivial, by simp, le_refl _, h0, le_refl _, ?_⟩, hwf, hTB⟩, rfl, rfl, ?_⟩
+    · show (0 : ℤ) ≤ _; positivity
+    · intro w
+      have : passIn ([] : Log) w (w + 500) = 0 := by simp [passIn]
+      rw [this]
+      have hp : (0 : ℚ) < T := hwf.Tpos
+      push_cast
+      linarith
+  have h := dinv_run ops d hm hr w
+  exact ⟨h, Nat.le_floor h⟩
 
 
 end Sentinel.C11
